@@ -163,7 +163,7 @@ def main():
         return 2
     from pyvc.contract import REGISTRY, STUBS
 
-    meta = props.PROPS[a.prop]
+    meta = props.PROPS.get(a.prop, {})
     # contracts of the property + (transitively) the contracts that discharge the stubs they rely on + canaries
     names = [n for n, fn in REGISTRY.items() if a.prop in fn.properties]
     todo = list(names)
@@ -249,11 +249,18 @@ def main():
     engine_disagreements = []
     for x, r in zip(cand, rep):
         x["replay"] = r
+        raised = bool(r.get("exception")) and r["exception"] != "precondition false"
         if x["clause"] == "no-exception":
-            x["confirmed"] = bool(r.get("exception")) and r["exception"] != "precondition false"
+            x["confirmed"] = raised
+        elif x["clause"] in r.get("failed", []) or (raised and x["clause"] not in r.get("checked", [])):
+            x["confirmed"] = True
+        elif x["clause"] not in r.get("checked", []) and not r.get("crash"):
+            # a structural obligation of the symbolic run (loop cut point, stub call-site precondition, extracted-map
+            # lemma) that the native text does not evaluate: the refutation stands, but there is no failing input
+            x["confirmed"] = "no-input"
         else:
-            x["confirmed"] = x["clause"] in r.get("failed", []) or (bool(r.get("exception")) and r["exception"] != "precondition false" and x["clause"] not in r.get("checked", []))
-        if not x["confirmed"]:
+            x["confirmed"] = False
+        if x["confirmed"] is False:
             engine_disagreements.append(x)
     for x in cand[MAXREPLAY:]:
         x["replay"] = None
@@ -282,6 +289,7 @@ def main():
     native_evals = 0
     native_by_contract = {}
     refuted_obl = {x["contract"] + "." + x["clause"] for x in cand}
+    jobidx = {(r["contract"], json.dumps(r["shape"], sort_keys=True, default=str)): r for r in res}
     for it, r in zip(rnd_items, rnd_res):
         if r.get("crash"):
             crashes.append((it["contract"], it["shape"], r["crash"]))
@@ -309,7 +317,13 @@ def main():
         elif k in refuted_obl:
             extra_viol.append(nf)  # consistent with the symbolic verdict; another witness
         else:
-            unsound.append(nf)
+            jr = jobidx.get((nf["contract"], json.dumps(nf["shape"], sort_keys=True, default=str)))
+            broken_callee = any(any(x2["contract"] == prov for x2 in cand) for st in REGISTRY[nf["contract"]].stubs for prov in STUBS[st]["provided_by"])
+            clean = not broken_callee and jr is not None and not jr["refuted"] and not jr["undecided"] and not jr["exceptions"] and not jr.get("crash") and (nf["clause"] == "no-exception" or nf["clause"] in jr["clauses"])
+            if clean:
+                unsound.append(nf)  # the symbolic run discharged exactly this clause on exactly this shape
+            else:
+                extra_viol.append(nf)  # the symbolic run of this shape did not get that far: a native-only witness
     for n in names:
         if REGISTRY[n].bounded:
             for r_it, r in zip(rnd_items, rnd_res):
@@ -341,7 +355,7 @@ def main():
     canary_bad = []
     canaries = [n for n in names if REGISTRY[n].canary]
     for n in canaries:
-        hit = [x for x in cand if x["contract"] == n and x["confirmed"]]
+        hit = [x for x in cand if x["contract"] == n and x["confirmed"] is True]
         if not hit:
             canary_bad.append(n)
     # vacuity guards
@@ -388,16 +402,16 @@ def main():
         seen_obl.setdefault(obl, []).append(x)
     viol_files = []
     for obl, xs in seen_obl.items():
-        x = xs[0]
+        x = next((y for y in xs if y["confirmed"] is True), xs[0])
         path = os.path.join(rdir, slug(obl) + ".json")
         doc = dict(property=a.prop, obligation=obl, contract=x["contract"], target=REGISTRY[x["contract"]].target, shape=x["shape"], witness=x["witness"],
                    native_replay=x["replay"], refuted_instances=len(xs), other_shapes=[y["shape"] for y in xs[1:6]],
-                   verifier_output=dict(exc=x.get("exc")),
+                   verifier_output=dict(exc=x.get("exc"), confirmed_natively=x["confirmed"], note=(x["witness"] or {}).get("__note__") if isinstance(x["witness"], dict) else None),
                    rerun=f"cd {HERE} && ./check {a.prop} --replay {os.path.relpath(path, HERE)}")
         json.dump(doc, open(path, "w"), indent=1, default=str)
         viol_files.append(path)
-        has_input = bool(x["witness"]) or x.get("native_only")
-        lines.append(f"VIOLATION property={a.prop} replay={path}" + ("" if has_input and x["confirmed"] else " no-failing-input-found"))
+        x = next((y for y in xs if y["confirmed"] is True), xs[0])
+        lines.append(f"VIOLATION property={a.prop} replay={path}" + ("" if x["confirmed"] is True else " no-failing-input-found"))
     for kid, h in known_hit.items():
         lines.append(f"KNOWN-FINDING: property={a.prop} {h['entry']['obligation']} [{kid}] {h['entry']['what']} ({h['n']} refuted instance(s) match)")
 
